@@ -65,6 +65,13 @@ def do_run(prop, muts, also, tier):
             res['demo_clean_exit'] = rc0
         rc, out = sh(['git', '-C', str(REPO), 'apply', str(patch)])
         if rc != 0:
+            # the tree has moved on since the mutation was made (later fix: commits): merge it in
+            rc, out = sh(['git', '-C', str(REPO), 'apply', '--3way', str(patch)])
+            res['applied_with'] = '3way'
+            if rc != 0:
+                sh(['git', '-C', str(REPO), 'reset', '-q', 'HEAD', '--', '.'])
+                sh(['git', '-C', str(REPO), 'checkout', '--', '.'])
+        if rc != 0:
             res['apply_error'] = out[-400:]
             print(prop, m, 'patch does not apply:', out[-200:])
             (d / 'result.json').write_text(json.dumps(res, indent=1))
@@ -97,6 +104,7 @@ def do_run(prop, muts, also, tier):
                 res['checks'][c]['signatures'] = sigs
                 print(prop, m, c, 'exit', rc, sigs[:3])
         finally:
+            sh(['git', '-C', str(REPO), 'reset', '-q', 'HEAD', '--', '.'])
             sh(['git', '-C', str(REPO), 'checkout', '--', '.'])
         res['caught'] = res.get('checks', {}).get(prop, {}).get('exit') == 1
         res['caught_by'] = [c for c, v in res.get('checks', {}).items() if v['exit'] == 1]
